@@ -3,11 +3,14 @@
 //
 // A persistent recording actor (state = list of ints) is driven sequentially through the REAL
 // vivid.ActorSystem. Every step is a blocking ask from one goroutine, so a run is deterministic.
-// Storage is persistence.MemoryStorage behind a recording wrapper that copies what Save receives.
+// Storage is persistence.MemoryStorage (or, per case, an own map storage whose stored slices have spare capacity)
+// behind a recording wrapper that copies what Save receives and has a fault switch: while the switch is on, Save
+// records what it received and returns an error without touching the storage (any subset of the saves may fail).
 package main
 
 import (
 	"encoding/json"
+	"errors"
 	"flag"
 	"fmt"
 	"io"
@@ -28,6 +31,8 @@ import (
 type Op struct {
 	K string `json:"k"`           // E event(V) | F fail (panic -> supervised restart) | S stop + re-create (V = threshold of the new context) | P explicit ctx.Persistence() | Q query
 	V int64  `json:"v,omitempty"` // E: event value; S: threshold of the re-created actor
+	// Fault (F, S, P): Storage.Save returns an error during this operation (the storage is left as it was)
+	Fault bool `json:"fault,omitempty"`
 }
 
 // Rec is a (snapshot, events) pair as handed to Storage.Save.
@@ -35,6 +40,7 @@ type Rec struct {
 	HasSnap bool    `json:"has_snap"`
 	Snap    []int64 `json:"snap"`
 	Events  []int64 `json:"events"`
+	Failed  bool    `json:"failed,omitempty"` // this Save returned an error (fault switch)
 }
 
 // Item is one message delivered to a fresh instance during recovery.
@@ -58,21 +64,60 @@ type Res struct {
 	Trace   []Item  `json:"trace,omitempty"`   // launch: messages the new instance received while recovering
 	Counts  []int64 `json:"counts,omitempty"`  // launch: values returned by StateChanged while replaying
 	State   []int64 `json:"state,omitempty"`   // launch/state: the actor's state
-	Err     string  `json:"err,omitempty"`
+	// HandlerErr (saved): ctx.Persistence() returned an error to the handler
+	HandlerErr bool   `json:"handler_err,omitempty"`
+	Err        string `json:"err,omitempty"`
 }
 
 type Case struct {
-	RF   bool  `json:"record_first,omitempty"` // the actor calls StateChanged before applying the event (open finding C09-snapshot-before-apply)
-	Th   int64 `json:"th"`                     // snapshot threshold of the first context
-	Ops  []Op  `json:"ops"`
-	Impl []Res `json:"impl"`
+	RF bool  `json:"record_first,omitempty"` // the actor calls StateChanged before applying the event (open finding C09-snapshot-before-apply)
+	Th int64 `json:"th"`                     // snapshot threshold of the first context
+	// Store: "" = persistence.MemoryStorage; "roomy" = the harness's own map storage, which keeps a copy of what it is
+	// handed in a slice with spare capacity (what Load returns can be appended to in place)
+	Store string `json:"store,omitempty"`
+	Ops   []Op   `json:"ops"`
+	Impl  []Res  `json:"impl"`
 }
 
 // ---------------------------------------------------------------- recording storage
 
 type recStorage struct {
-	inner *persistence.MemoryStorage
+	inner persistence.Storage
 	env   *env
+}
+
+var errInjected = errors.New("c09 injected storage fault")
+
+// roomyStorage: an ordinary persistence.Storage. It keeps its own copy of the events, in a slice that has room for more.
+type roomyStorage struct{}
+
+type roomyRecord struct {
+	snapshot persistence.Snapshot
+	events   []persistence.Event
+}
+
+var roomyRecords sync.Map // persistence.Name -> *roomyRecord
+
+func (roomyStorage) Save(name persistence.Name, snapshot persistence.Snapshot, events []persistence.Event) error {
+	cp := make([]persistence.Event, len(events), len(events)+3)
+	copy(cp, events)
+	roomyRecords.Store(name, &roomyRecord{snapshot: snapshot, events: cp})
+	return nil
+}
+func (roomyStorage) Load(name persistence.Name) (persistence.Snapshot, []persistence.Event, error) {
+	if r, ok := roomyRecords.Load(name); ok {
+		rec := r.(*roomyRecord)
+		return rec.snapshot, rec.events, nil
+	}
+	return nil, nil, persistence.ErrorPersistenceNotHasRecord
+}
+func (roomyStorage) Clear(name persistence.Name) error { roomyRecords.Delete(name); return nil }
+
+func newInner(kind string) persistence.Storage {
+	if kind == "roomy" {
+		return roomyStorage{}
+	}
+	return persistence.NewMemoryStorage()
 }
 
 func (s *recStorage) Save(name persistence.Name, snapshot persistence.Snapshot, events []persistence.Event) error {
@@ -94,9 +139,13 @@ func (s *recStorage) Save(name persistence.Name, snapshot persistence.Snapshot, 
 		}
 	}
 	s.env.mu.Lock()
+	r.Failed = s.env.fault
 	s.env.saves = append(s.env.saves, r)
 	s.env.mu.Unlock()
-	return s.inner.Save(name, snapshot, events) // the caller's slice is passed on unchanged (MemoryStorage keeps it)
+	if r.Failed {
+		return errInjected // the storage is not touched
+	}
+	return s.inner.Save(name, snapshot, events) // the caller's slice is passed on unchanged
 }
 func (s *recStorage) Load(name persistence.Name) (persistence.Snapshot, []persistence.Event, error) {
 	return s.inner.Load(name)
@@ -108,7 +157,7 @@ func (s *recStorage) Clear(name persistence.Name) error { return s.inner.Clear(n
 type addMsg struct{ v int64 }
 type snapMsg struct{ state []int64 }
 type crashMsg struct{}
-type persistMsg struct{}
+type persistMsg struct{ err error } // reply: what ctx.Persistence() returned
 type queryMsg struct{}
 type spawnMsg struct {
 	env *env
@@ -135,11 +184,19 @@ type env struct {
 	mu         sync.Mutex
 	name       string // persistence name and actor name
 	rf         bool   // record before apply
+	store      string // kind of the storage behind the wrapper
+	fault      bool   // fault switch of the recording storage: Save fails while it is on
 	saves      []*Rec
 	gen        int
 	launched   chan int
 	terminated chan struct{}
 	child      vivid.ActorRef
+}
+
+func (e *env) setFault(on bool) {
+	e.mu.Lock()
+	e.fault = on
+	e.mu.Unlock()
 }
 
 func (e *env) takeSaves() []*Rec {
@@ -218,12 +275,7 @@ func (r *recorder) OnReceive(ctx vivid.ActorContext) {
 	case *crashMsg:
 		panic("c09 injected failure")
 	case *persistMsg:
-		err := ctx.Persistence()
-		if err != nil {
-			ctx.Reply(err)
-		} else {
-			ctx.Reply(&persistMsg{})
-		}
+		ctx.Reply(&persistMsg{err: ctx.Persistence()})
 	case *queryMsg:
 		ctx.Reply(&queryReply{gen: r.gen, state: append([]int64{}, r.state...), trace: append([]Item{}, r.trace...), counts: append([]int64{}, r.counts...)})
 	}
@@ -256,7 +308,7 @@ func (s *supervisor) OnReceive(ctx vivid.ActorContext) {
 			d.WithPersistenceName("c09:" + e.name)
 			d.WithPersistenceEventThreshold(m.th)
 			d.WithPersistenceStorageProvider(persistence.FunctionalStorageProvider(func() persistence.Storage {
-				return &recStorage{inner: persistence.NewMemoryStorage(), env: e}
+				return &recStorage{inner: newInner(e.store), env: e}
 			}))
 			d.WithSupervisionStrategyProvider(restartNow)
 		})
@@ -442,8 +494,8 @@ func (d *driver) runOnce(c *Case) {
 	}
 	d.ensure()
 	d.seq++
-	e := &env{name: fmt.Sprintf("p%d-%d", os.Getpid(), d.seq), rf: c.RF, launched: make(chan int, 8), terminated: make(chan struct{}, 8)}
-	defer func() { _ = persistence.NewMemoryStorage().Clear("c09:" + e.name) }()
+	e := &env{name: fmt.Sprintf("p%d-%d", os.Getpid(), d.seq), rf: c.RF, store: c.Store, launched: make(chan int, 8), terminated: make(chan struct{}, 8)}
+	defer func() { _ = newInner(e.store).Clear("c09:" + e.name) }()
 	fail := func(r Res) {
 		for len(c.Impl) < len(c.Ops) {
 			c.Impl = append(c.Impl, r)
@@ -461,6 +513,7 @@ func (d *driver) runOnce(c *Case) {
 	alive := true
 	for _, o := range c.Ops {
 		var res Res
+		e.setFault(o.Fault && (o.K == "P" || o.K == "F" || o.K == "S"))
 		switch o.K {
 		case "E":
 			r, err := d.ask(e.child, &addMsg{v: o.V})
@@ -493,11 +546,12 @@ func (d *driver) runOnce(c *Case) {
 				res = bad(err)
 				break
 			}
-			if _, ok := r.(*persistMsg); !ok {
+			pr, ok := r.(*persistMsg)
+			if !ok {
 				res = Res{K: "panic", Err: fmt.Sprintf("unexpected reply %T", r)}
 				break
 			}
-			res = Res{K: "saved", Saved: recOf(e.takeSaves())}
+			res = Res{K: "saved", Saved: recOf(e.takeSaves()), HandlerErr: pr.err != nil}
 		case "F":
 			e.takeSaves()
 			gen := d.curGen(e)
@@ -534,6 +588,7 @@ func (d *driver) runOnce(c *Case) {
 		default:
 			panic("bad op " + o.K)
 		}
+		e.setFault(false)
 		c.Impl = append(c.Impl, res)
 		if res.K == "timeout" || res.K == "panic" {
 			alive = false
@@ -621,8 +676,54 @@ func opName(k string) string {
 	return "query"
 }
 
+// faultTrack follows, on the Go side and from the implementation's own outputs, what the property needs to know about
+// failing saves: has any Save returned an error yet; has one failed since the last Save that returned nil; was the
+// journal truncated by a threshold snapshot and appended to again since the last Save that returned nil (the appends
+// reuse the journal's backing array in place: a stored record that shares it is overwritten).
+type faultTrack struct {
+	anyFailed, failedSinceOK, everSaved bool
+	truncSinceOK, overwriteSinceOK      bool
+	consecutive, maxConsecutive         int
+}
+
+func (t *faultTrack) event(snapReq bool) {
+	if t.truncSinceOK {
+		t.overwriteSinceOK = true
+	}
+	if snapReq {
+		t.truncSinceOK = true
+	}
+}
+
+func (t *faultTrack) save(r *Rec) {
+	if r == nil {
+		return
+	}
+	if r.Failed {
+		t.anyFailed, t.failedSinceOK = true, true
+		t.consecutive++
+		if t.consecutive > t.maxConsecutive {
+			t.maxConsecutive = t.consecutive
+		}
+		return
+	}
+	*t = faultTrack{anyFailed: t.anyFailed, everSaved: true, maxConsecutive: t.maxConsecutive}
+}
+
+func yn(b bool) string {
+	if b {
+		return "yes"
+	}
+	return "no"
+}
+
 func monitor(c *Case) (viol []vh.Violation) {
-	var want []int64 // every event recorded so far, in order = the state the actor must have
+	// want: the state the current instance must have = the state rebuilt at its launch followed by the events recorded since.
+	// Without failing saves that is every event recorded so far, in order.
+	var want []int64
+	// pers: the state the actor had at the last Storage.Save that returned nil (nothing yet: empty) = what every launch must rebuild
+	var pers []int64
+	var ft faultTrack
 	// what the open finding C09-snapshot-before-apply predicts for a record-first actor: the snapshot requested inside
 	// StateChanged is taken before the event is applied, and the event is dropped from the journal
 	var fLive, fSnap, fTail, wantF []int64
@@ -630,13 +731,14 @@ func monitor(c *Case) (viol []vh.Violation) {
 	var stored *Rec // the record storage holds: the last one handed to Storage.Save
 	explained := false
 	// differs: got is not the expected state; in a record-first run remember whether it is what the finding predicts
-	differs := func(got []int64) bool {
-		if eqs(got, want) {
+	differsFrom := func(got, exp []int64) bool {
+		if eqs(got, exp) {
 			return false
 		}
 		explained = c.RF && eqs(got, wantF)
 		return true
 	}
+	differs := func(got []int64) bool { return differsFrom(got, want) }
 	stop := false
 	add := func(i int, kind, detail string, sig map[string]string) {
 		if c.RF && len(viol) > 0 {
@@ -670,6 +772,7 @@ func monitor(c *Case) (viol []vh.Violation) {
 		switch o.K {
 		case "E":
 			want = append(want, o.V)
+			ft.event(got.SnapReq)
 			if got.SnapReq {
 				fSnap, fTail = append([]int64{}, fLive...), nil
 			} else {
@@ -688,15 +791,22 @@ func monitor(c *Case) (viol []vh.Violation) {
 				add(i, "persist:query:state-"+classify(want, got.State), fmt.Sprintf("state %v, expected %v", got.State, want), nil)
 			}
 		case "P", "F", "S":
-			if got.Saved != nil {
+			failedNow := got.Saved != nil && got.Saved.Failed
+			if got.Saved != nil && !failedNow {
 				stored = got.Saved
 			}
 			wantF = append(append([]int64{}, fSnap...), fTail...)
 			if o.K != "P" {
 				fLive = wantF
 			}
-			// what storage holds after the persist of this step must rebuild the state the actor has now
-			if stored != nil {
+			if failedNow {
+				// what the failing Save was handed is still the state the actor has now
+				all := append(append([]int64{}, got.Saved.Snap...), got.Saved.Events...)
+				if differs(all) {
+					add(i, "persist:"+opName(o.K)+":handed-to-save-"+classify(want, all), fmt.Sprintf("the (failing) Save received snapshot %v (present=%v) + events %v, state at persist is %v", got.Saved.Snap, got.Saved.HasSnap, got.Saved.Events, want), nil)
+				}
+			} else if stored != nil {
+				// what storage holds after the persist of this step must rebuild the state the actor has now
 				all := append(append([]int64{}, stored.Snap...), stored.Events...)
 				if differs(all) {
 					add(i, "persist:"+opName(o.K)+":stored-"+classify(want, all), fmt.Sprintf("storage holds snapshot %v (present=%v) + events %v (saved in this step: %v), state at persist is %v", stored.Snap, stored.HasSnap, stored.Events, got.Saved != nil, want), nil)
@@ -704,12 +814,31 @@ func monitor(c *Case) (viol []vh.Violation) {
 			} else if len(want) > 0 {
 				add(i, "persist:"+opName(o.K)+":not-stored", fmt.Sprintf("Storage.Save never called, state at persist is %v", want), nil)
 			}
+			launchSig := map[string]string{"save": "none", "record": "none", "overwrite": yn(ft.overwriteSinceOK)}
+			if ft.everSaved {
+				launchSig["record"] = "present"
+			}
+			if got.Saved != nil {
+				launchSig["save"] = "ok"
+				if failedNow {
+					launchSig["save"] = "failed"
+				} else {
+					pers = append([]int64{}, want...) // a Save returned nil: this is the state every later launch rebuilds
+				}
+			}
+			ft.save(got.Saved)
 			if o.K == "P" {
 				break
 			}
 			gens++
+			// the launch: the new instance starts from the state at the last Save that returned nil
+			want = append([]int64{}, pers...)
 			if differs(got.State) {
-				add(i, "persist:"+opName(o.K)+":launch-state-"+classify(want, got.State), fmt.Sprintf("state at launch %v, state at last persist %v", got.State, want), map[string]string{"generation": genBucket(gens)})
+				if ft.anyFailed {
+					add(i, "persist:launch:recovered-"+classify(want, got.State), fmt.Sprintf("state at launch %v, state at the last Save that returned nil %v (this step's Save: %s)", got.State, want, launchSig["save"]), launchSig)
+				} else {
+					add(i, "persist:"+opName(o.K)+":launch-state-"+classify(want, got.State), fmt.Sprintf("state at launch %v, state at last persist %v", got.State, want), map[string]string{"generation": genBucket(gens)})
+				}
 			}
 			// replay: at most one snapshot, first; snapshot ++ replayed events = state; nothing recorded again
 			var rebuilt []int64
@@ -757,10 +886,19 @@ func coqOp(o Op) string {
 	case "E":
 		return vh.App("Event", vh.Z(o.V))
 	case "F":
+		if o.Fault {
+			return "FailF"
+		}
 		return "Fail"
 	case "S":
+		if o.Fault {
+			return vh.App("StopRecreateF", vh.Z(o.V))
+		}
 		return vh.App("StopRecreate", vh.Z(o.V))
 	case "P":
+		if o.Fault {
+			return "PersistF"
+		}
 		return "Persist"
 	case "Q":
 		return "Query"
@@ -812,8 +950,18 @@ func coqRes(r Res) string {
 				tr[i] = vh.App("REv", vh.Z(it.V))
 			}
 		}
-		return vh.App("OLaunch", coqRec(r.Saved), vh.List(tr), vh.ListZ(r.Counts), vh.ListZ(r.State))
+		o := vh.App("OLaunch", coqRec(r.Saved), vh.List(tr), vh.ListZ(r.Counts), vh.ListZ(r.State))
+		if r.Saved != nil && r.Saved.Failed { // the Save of the old instance's persist returned an error
+			return vh.App("OSaveFailed", o)
+		}
+		return o
 	case "saved":
+		if (r.Saved != nil && r.Saved.Failed) != r.HandlerErr {
+			return "OBad" // Storage.Save's result and what ctx.Persistence() returned to the handler differ
+		}
+		if r.HandlerErr {
+			return vh.App("OSaveFailed", vh.App("OSaved", coqRec(r.Saved)))
+		}
 		return vh.App("OSaved", coqRec(r.Saved))
 	case "state":
 		return vh.App("OState", vh.ListZ(r.State))
@@ -835,9 +983,30 @@ func coqCase(id int, c *Case) string {
 
 // ---------------------------------------------------------------- generators
 
-func genCase(rng *vh.RNG) (Case, bool) {
+// genCase: a random history. With faults allowed, the storage kind is drawn too and, in 3 of 5 histories, each persisting
+// operation (explicit persist, restart, stop + re-create) fails with probability 15 / 30 / 40 % (at least 50 % right
+// after another failure: runs of consecutive failures), about 19 % of all saves; one history in 10 has a long journal
+// (threshold 18..20 and as many events less one first: the copy a storage makes of 17+ events has spare capacity).
+func genCase(rng *vh.RNG, faults bool) (Case, bool) {
 	var c Case
 	malformed := false
+	pct, lastFailed := 0, false
+	long := false
+	if faults {
+		if rng.Bool() {
+			c.Store = "roomy"
+		}
+		pct = []int{0, 0, 15, 30, 40}[rng.Intn(5)]
+		long = rng.Chance(1, 10)
+	}
+	faulty := func() bool {
+		p := pct
+		if lastFailed && p > 0 && p < 50 {
+			p = 50
+		}
+		lastFailed = rng.Intn(100) < p
+		return lastFailed
+	}
 	pickTh := func() int64 {
 		switch rng.Intn(20) {
 		case 0:
@@ -851,9 +1020,16 @@ func genCase(rng *vh.RNG) (Case, bool) {
 		return int64(rng.Range(1, 5))
 	}
 	c.Th = pickTh()
+	var next int64
+	if long {
+		c.Th = int64(rng.Range(18, 20))
+		for next < c.Th-1 {
+			next++
+			c.Ops = append(c.Ops, Op{K: "E", V: next})
+		}
+	}
 	th := c.Th
 	n := rng.Range(1, 40)
-	var next int64
 	pE := rng.Range(4, 8)
 	for i := 0; i < n; i++ {
 		if rng.Intn(10) < pE {
@@ -867,20 +1043,136 @@ func genCase(rng *vh.RNG) (Case, bool) {
 		}
 		switch rng.Intn(8) {
 		case 0, 1, 2:
-			c.Ops = append(c.Ops, Op{K: "F"})
+			c.Ops = append(c.Ops, Op{K: "F", Fault: faulty()})
 		case 3, 4, 5:
 			if rng.Chance(1, 4) {
 				th = pickTh()
 			}
-			c.Ops = append(c.Ops, Op{K: "S", V: th})
+			c.Ops = append(c.Ops, Op{K: "S", V: th, Fault: faulty()})
 		case 6:
-			c.Ops = append(c.Ops, Op{K: "P"})
+			c.Ops = append(c.Ops, Op{K: "P", Fault: faulty()})
 		case 7:
 			c.Ops = append(c.Ops, Op{K: "Q"})
 		}
 	}
 	c.Ops = append(c.Ops, Op{K: "Q"})
 	return c, malformed
+}
+
+// genFaultCase: a history assembled from the shapes in which a failing save matters: a failure before any record exists,
+// a failure after a threshold snapshot truncated the journal and later events were appended in place, several failures
+// in a row, a failure followed by a success, stop + re-create with a failure.
+func genFaultCase(rng *vh.RNG) Case {
+	var c Case
+	c.Th = int64(rng.Range(2, 5))
+	if rng.Bool() {
+		c.Store = "roomy"
+	}
+	th := c.Th
+	var next int64
+	events := func(k int) {
+		for ; k > 0; k-- {
+			next++
+			c.Ops = append(c.Ops, Op{K: "E", V: next})
+		}
+	}
+	relaunch := func(fault bool) {
+		if rng.Bool() {
+			c.Ops = append(c.Ops, Op{K: "F", Fault: fault})
+			return
+		}
+		if rng.Chance(1, 5) {
+			th = int64(rng.Range(1, 5))
+		}
+		c.Ops = append(c.Ops, Op{K: "S", V: th, Fault: fault})
+	}
+	saveOK := func() {
+		if rng.Chance(2, 3) {
+			c.Ops = append(c.Ops, Op{K: "P"})
+		} else {
+			relaunch(false)
+		}
+	}
+	for seg := rng.Range(1, 4); seg > 0 && len(c.Ops) < 36; seg-- {
+		switch rng.Intn(6) {
+		case 0: // failure before (or without) a new record
+			events(rng.Range(0, int(th)))
+			relaunch(true)
+		case 1: // record, then truncation, then in-place appends, then failure(s)
+			events(int(th) + rng.Range(0, int(th)-1))
+			saveOK()
+			events(int(th))
+			events(rng.Range(1, 2))
+			for k := rng.Range(0, 2); k > 0; k-- {
+				c.Ops = append(c.Ops, Op{K: "P", Fault: true})
+			}
+			relaunch(true)
+		case 2: // several failures in a row
+			events(rng.Range(0, 2))
+			for k := rng.Range(2, 4); k > 0; k-- {
+				if rng.Chance(1, 3) {
+					c.Ops = append(c.Ops, Op{K: "P", Fault: true})
+				} else {
+					relaunch(true)
+				}
+				events(rng.Range(0, 1))
+			}
+		case 3: // failure, then success
+			events(rng.Range(0, 2))
+			relaunch(true)
+			events(rng.Range(0, 2))
+			saveOK()
+			relaunch(rng.Chance(1, 4))
+		case 4: // stop + re-create with a failure
+			events(rng.Range(1, int(th)))
+			c.Ops = append(c.Ops, Op{K: "S", V: th, Fault: true})
+		case 5:
+			events(rng.Range(1, 3))
+			relaunch(false)
+		}
+		if rng.Chance(1, 4) {
+			c.Ops = append(c.Ops, Op{K: "Q"})
+		}
+	}
+	c.Ops = append(c.Ops, Op{K: "Q"})
+	return c
+}
+
+// enumerateFaults: every history over {event, a, persist, a with a failing save} (a = "F" restart or "S" stop +
+// re-create) of length 1..maxLen that contains at least one failing save.
+func enumerateFaults(maxLen int, ths []int64, store, a string, each func(c *Case)) {
+	alpha := []string{"E", a, "P", "X"}
+	for _, th := range ths {
+		var rec func(prefix []string, depth int, hasX bool)
+		rec = func(prefix []string, depth int, hasX bool) {
+			if hasX {
+				c := Case{Th: th, Store: store}
+				var k int64
+				for _, x := range prefix {
+					switch x {
+					case "E":
+						k++
+						c.Ops = append(c.Ops, Op{K: "E", V: k})
+					case "X":
+						c.Ops = append(c.Ops, Op{K: a, V: map[string]int64{"S": th}[a], Fault: true})
+					case "S":
+						c.Ops = append(c.Ops, Op{K: "S", V: th})
+					default:
+						c.Ops = append(c.Ops, Op{K: x})
+					}
+				}
+				c.Ops = append(c.Ops, Op{K: "Q"})
+				each(&c)
+			}
+			if depth == 0 {
+				return
+			}
+			for _, x := range alpha {
+				rec(append(prefix[:len(prefix):len(prefix)], x), depth-1, hasX || x == "X")
+			}
+		}
+		rec(nil, maxLen, false)
+	}
 }
 
 // enumerate every history over {event, fail, stop+re-create} of length 1..maxLen: the crash or stop is
@@ -923,7 +1215,42 @@ func corpus() []Case {
 	q := Op{K: "Q"}
 	s := func(th int64) Op { return Op{K: "S", V: th} }
 	f := Op{K: "F"}
+	p := Op{K: "P"}
+	pf, ff := Op{K: "P", Fault: true}, Op{K: "F", Fault: true}
+	sf := func(th int64) Op { return Op{K: "S", V: th, Fault: true} }
+	evs := func(from, to int64) (l []Op) {
+		for v := from; v <= to; v++ {
+			l = append(l, ev(v))
+		}
+		return
+	}
+	cat := func(ls ...[]Op) (l []Op) {
+		for _, x := range ls {
+			l = append(l, x...)
+		}
+		return
+	}
 	return []Case{
+		// ---- failing saves (round 12): minimised witnesses of the three defects first
+		// (a) MemoryStorage.Save kept the caller's slice: snapshot [1 2] + events [3] are stored, then the journal is truncated
+		//     (event 4) and event 5 is appended in place, over the stored 3; the restart's save fails: launch state [1 2 5], not [1 2 3]
+		{Th: 2, Ops: []Op{ev(1), ev(2), ev(3), p, ev(4), ev(5), ff, q}},
+		// the same with the history of the report (threshold 3)
+		{Th: 3, Ops: []Op{ev(1), ev(2), ev(3), ev(4), p, ev(5), ev(6), ev(7), pf, ff, q}},
+		// (b) a restart whose save fails while nothing is stored: the new instance starts empty, the kept journal must too;
+		//     otherwise the next successful save writes 1 2 out and the last launch rebuilds [1 2 3] instead of [3]
+		{Th: 1000, Ops: []Op{ev(1), ev(2), ff, q, ev(3), f, q}},
+		{Th: 3, Ops: []Op{ev(1), ev(2), ff, ff, ev(3), p, ev(4), ev(5), s(3), q}},
+		// (c) the seeded change "State.Load adopts the storage's slice": the stored events [1] get event 2 appended in place
+		//     (spare capacity), the snapshot truncates, event 3 lands on the stored 1; the restart's save fails: launch state [3], not [1]
+		{Th: 2, Store: "roomy", Ops: []Op{ev(1), f, ev(2), ev(3), ff, q}},
+		// the same through MemoryStorage: the copy it makes of 17 events has capacity 18
+		{Th: 18, Ops: cat(evs(1, 17), []Op{f, ev(18), ev(19), ff, q})},
+		{Th: 18, Ops: cat(evs(1, 17), []Op{s(18), ev(18), ev(19), sf(18), q})},
+		// failure, then success; consecutive failures; stop + re-create with a failure; failure before any record
+		{Th: 2, Store: "roomy", Ops: []Op{ev(1), pf, ff, q, ev(2), ev(3), sf(2), ev(4), p, ev(5), ev(6), ev(7), pf, sf(3), q}},
+		{Th: 3, Ops: []Op{ff, sf(3), pf, ev(1), sf(3), q, ev(2), ev(3), ev(4), ev(5), f, ev(6), ev(7), ev(8), pf, pf, ff, ff, q}},
+		{Th: 1, Ops: []Op{ev(1), ff, ev(2), sf(1), q, ev(3), p, ev(4), ff, q}},
 		// DESIGN §6 C09 probe (a): three generations under one persistence name, two events each, no snapshot
 		{Th: 1000, Ops: []Op{q, ev(1), ev(1), s(1000), ev(1), ev(1), s(1000), q}},
 		{Th: 5, Ops: []Op{ev(1), ev(2), s(5), ev(3), ev(4), s(5), ev(5), f, q}},
@@ -944,17 +1271,62 @@ func record(out *vh.Out, d *driver, c *Case, malformed bool) {
 	d.runImpl(c)
 	v := monitor(c)
 	gens, snaps, events := 1, 0, 0
+	// distribution of the failing saves, measured on what the recording storage saw
+	var ft faultTrack
+	saves, failedSaves := 0, 0
 	for i, o := range c.Ops {
-		out.Count("op_mix", o.K)
+		k := o.K
+		if o.Fault {
+			k += "-failing-save"
+		}
+		out.Count("op_mix", k)
+		var got Res
+		if i < len(c.Impl) {
+			got = c.Impl[i]
+		}
 		switch o.K {
-		case "F", "S":
+		case "F", "S", "P":
+			if got.Saved != nil {
+				saves++
+				out.Count("save_results", map[bool]string{true: "error", false: "nil"}[got.Saved.Failed])
+				if got.Saved.Failed {
+					failedSaves++
+					out.Count("failing_save", opName(o.K)+map[bool]string{true: ":a-record-exists", false: ":before-any-record"}[ft.everSaved])
+				}
+			}
+			ft.save(got.Saved)
+			if o.K == "P" {
+				break
+			}
 			gens++
+			out.Count("launch", fmt.Sprintf("save-failed-since-last-good-save=%s in-place-append-after-truncation-since-last-good-save=%s", yn(ft.failedSinceOK), yn(ft.overwriteSinceOK)))
+			if ft.anyFailed && !ft.failedSinceOK {
+				out.Count("launch_shapes", "failure-then-success")
+			}
+			if ft.failedSinceOK && ft.overwriteSinceOK {
+				out.Count("launch_shapes", "failure-after-truncation-and-in-place-append")
+			}
+			if ft.failedSinceOK && !ft.everSaved {
+				out.Count("launch_shapes", "failure-before-any-record")
+			}
+			if o.K == "S" && got.Saved != nil && got.Saved.Failed {
+				out.Count("launch_shapes", "recreate-with-failure")
+			}
 		case "E":
 			events++
-			if i < len(c.Impl) && c.Impl[i].SnapReq {
+			if got.SnapReq {
 				snaps++
 			}
+			ft.event(got.SnapReq)
 		}
+	}
+	out.Count("saves", "all:"+vh.Bucket(saves))
+	out.Count("saves", "failing:"+vh.Bucket(failedSaves))
+	out.Count("consecutive_failing_saves", fmt.Sprint(ft.maxConsecutive))
+	if c.Store == "" {
+		out.Count("storage", "MemoryStorage")
+	} else {
+		out.Count("storage", c.Store)
 	}
 	out.Count("generations", vh.Bucket(gens))
 	out.Count("snapshots", vh.Bucket(snaps))
@@ -1016,6 +1388,12 @@ func main() {
 			"quick: every history over {event, fail, stop+re-create} of length<=5 x thresholds 1..3 + random histories (len 1..40, thresholds -2..9 and 1000); "+
 			"thorough: every such history of length<=8 x thresholds 1..4 + 10x random; non-trivial = at least 2 generations and at least 1 threshold snapshot "+
 			"(both measured on the implementation's outputs); distinct by hash of (actor kind, threshold, ops); "+
+			"failing saves (any subset of the Storage.Save calls returns an error and leaves the storage as it was; Load and Clear never fail): corpus of "+
+			"defect witnesses first; every history over {event, restart, persist, restart with failing save} of length<=5 with at least one failing save x "+
+			"thresholds 2,3 on a storage whose stored slices have spare capacity (thorough: length<=6, plus length<=7 x threshold 2 on MemoryStorage, plus "+
+			"stop+re-create instead of restart, length<=6); random histories assembled from the shapes failure-before-any-record / record, truncation, in-place "+
+			"appends, failure / consecutive failures / failure then success / re-create with failure; in the random histories about 19% of the saves fail and half "+
+			"run on the roomy storage; the fault-free histories and the record-first stream are generated as before; "+
 			"with -recordfirst the same generators also drive the actor that records before it applies (open finding)")
 	rng := vh.NewRNG(f.Seed)
 	for _, c := range corpus() {
@@ -1034,11 +1412,24 @@ func main() {
 	}
 	if maxLen > 0 {
 		enumerate(maxLen, ths, func(c *Case) { record(out, d, c, false) })
+		rec := func(c *Case) { record(out, d, c, false) }
+		if f.Tier == "thorough" {
+			enumerateFaults(6, []int64{2, 3}, "roomy", "F", rec)
+			enumerateFaults(7, []int64{2}, "", "F", rec)
+			enumerateFaults(6, []int64{2, 3}, "", "S", rec)
+		} else {
+			enumerateFaults(5, []int64{2, 3}, "roomy", "F", rec)
+		}
 	}
 	for i := 0; i < n; i++ {
 		cr, _ := rng.Derive()
-		c, mal := genCase(cr)
+		c, mal := genCase(cr, true)
 		record(out, d, &c, mal)
+	}
+	for i := 0; i < n/2; i++ {
+		cr, _ := rng.Derive()
+		c := genFaultCase(cr)
+		record(out, d, &c, false)
 	}
 	if *recordFirst {
 		// the actor that records before it applies: witness, small enumeration, random
@@ -1050,7 +1441,7 @@ func main() {
 		}
 		for i := 0; i < n/5; i++ {
 			cr, _ := rng.Derive()
-			c, mal := genCase(cr)
+			c, mal := genCase(cr, false)
 			c.RF = true
 			record(out, d, &c, mal)
 		}
